@@ -193,8 +193,45 @@ def check(ctx):
                     ctx.ob("W-TRIGGER", "%s %s: refill after the entry is removed" % (cq, tr.name), has, where=where(all_un[0]),
                            function=all_un[0].func, construct="%s/%s/refill" % (all_un[0].func, tr.name),
                            msg="%s handler frees a slot without refilling the window from the queue" % tr.name)
+            # any other packet that frees window slots while the connection stays up (the purge of an inherited session at a clean
+            # CONNACK): what publish() queued behind those slots must be sent now, no acknowledgement is left to trigger it later
+            if tr.kind == "NET" and tr.name not in ("PUBACK", "PUBCOMP") and tr.slot in ("CONNECTING", "CONNECTED") and tr.decode_ok \
+                    and not any(e.kind == "CLOSE" for e in tr.events) and tr.path.exit_kind() != "raise":
+                top = tr.events
+                first = None
+                for i, e in enumerate(top):
+                    inner = [e] if e.kind == "UNREG" else ([y for bp in e.a["body"] for y in bp.walk()] if e.kind == "LOOP" else [])
+                    hit = [y for y in inner if y.kind == "UNREG" and y.a["reg"] == W]
+                    if hit:
+                        first = (i, hit[0])
+                        break
+                # PUBREC moves the exchange to the release window: still outstanding, its PUBCOMP refills
+                moved = first is not None and any(y.kind == "REG" and y.a["reg"] == "windowPubRelease" for y in top[first[0] + 1:])
+                if first is not None and not moved:
+                    later = top[first[0] + 1:]
+                    has = bool(find_refill_loops(later)) or _queue_known_empty(tr.path.conds)
+                    ctx.ob("W-TRIGGER", "%s %s: refill after window entries are removed" % (cq, tr.name), has, where=where(first[1]),
+                           function=first[1].func, construct="%s/%s/refill" % (first[1].func, tr.name),
+                           msg="%s handling frees window slots (connection stays up) without refilling the window from the queue: a "
+                               "publish() held back behind those slots stays unsent with nothing outstanding to trigger it" % tr.name)
         ctx.count("refill_loop_sites", len(seen_loops))
     ctx.floor("refill loop instances over contexts", nloops, 2)
+
+
+def _queue_known_empty(conds):
+    """The path was taken under 'nothing is held back' (a guard around the refill call): if q / if len(q) > 0 / if len(q) != 0 false,
+    if not q / len(q) == 0 true."""
+    for c in conds:
+        t, pol = c.term, c.pol
+        while isinstance(t, tuple) and t and t[0] == "not":
+            t, pol = t[1], not pol
+        if isinstance(t, tuple) and t[:2] == ("reg", Q) and pol is False:
+            return True
+        if isinstance(t, tuple) and t[0] == "cmp" and mentions_len(t[2], Q) and t[2][0] == "call" and is_const(t[3]):
+            op, k = t[1], t[3][1]
+            if (op, k, pol) in ((">", 0, False), ("!=", 0, False), (">=", 1, False), ("==", 0, True), ("<", 1, True), ("<=", 0, True)):
+                return True
+    return False
 
 
 def _is_free_slots(t):
